@@ -5,6 +5,6 @@ cd /repo && git diff --quiet || { echo "/repo not clean"; exit 2; }
 P=/verif/seeded/$id/patch.diff; [ -f /verif/seeded/$id/patch_head.diff ] && P=/verif/seeded/$id/patch_head.diff; git apply $P || { echo "patch does not apply to /repo HEAD"; exit 2; }
 cd /verif && ./check $prop $tier > /verif/build/seed_$id.out 2>&1; rc=$?
 git -C /repo checkout -- .
-echo "seed=$id prop=$prop tier=$tier rc=$rc $(grep -c '^VIOLATION' /verif/build/seed_$id.out) violation lines"
+echo "seed=$id prop=$prop tier=$tier rc=$rc $(grep -c '^VIOLATION' /verif/build/seed_$id.out) violation lines, $(grep -c '^MODEL-DRIFT' /verif/build/seed_$id.out) drift"
 grep -m2 "violation instance" /verif/build/seed_$id.out | cut -c1-300
 exit $rc
